@@ -184,7 +184,7 @@ func c13window(ctx context.Context, cs c13case, b *board.Board, v ref.Score, has
 
 func checkC13(c *harness.Check) {
 	mustAnchors(c)
-	c.Rule = "search corpus (+ all positions one ply below each root for the direct quiescence calls) x depth 0..D x configuration x ALL windows a<b over the alphabet {lost, mated 1..7, every distinct leaf value of the tree and its two 1-ulp neighbours (thinned to <= 10 values when there are more), mate 7..1, won}: AlphaBeta.Search and Quiescence.QuietSearch (captures-only and TUROCHAMP) with that window vs the reference value v: r=v inside, v<=r<=a below, b<=r<=v above; quiescence never below the static evaluation when a legal move exists; move-less positions rated exactly for every window. distinct_nontrivial = distinct (case, side of the window the true value falls on) with a mate-valued bound or value"
+	c.Rule = "search corpus (+ all positions one ply below each root for the direct quiescence calls; + capture ladders: one forced line of captures of every length up to ten plies) x depth 0..D x configuration x ALL windows a<b over the alphabet {lost, mated 1..7, every distinct leaf value of the tree and its two 1-ulp neighbours (thinned to <= 10 values when there are more), mate 7..1, won}: AlphaBeta.Search and Quiescence.QuietSearch (captures-only and TUROCHAMP) with that window vs the reference value v: r=v inside, v<=r<=a below, b<=r<=v above; quiescence never below the static evaluation when a legal move exists; move-less positions rated exactly for every window. distinct_nontrivial = distinct (case, side of the window the true value falls on) with a mate-valued bound or value"
 	var cases []c13case
 	for _, r := range searchRoots {
 		net := strings.Contains(r.Tags, "net")
@@ -208,6 +208,26 @@ func checkC13(c *harness.Check) {
 		}
 		for _, qr := range roots {
 			cases = append(cases, c13case{Root: qr, Cfg: "full/captures-quiescence", Quiet: true}, c13case{Root: qr, Cfg: "turochamp", Quiet: true})
+		}
+	}
+	// capture ladders: a pawn of each side eats its way up a diagonal of enemy knights, nothing else can
+	// be captured - one forced line of captures of every length up to ten plies (a quiescence search that
+	// stops looking after some number of plies returns a bound, not the value); direct quiescence calls
+	// and depth 0/1 of the search over quiescence
+	for n := 1; n <= 5; n++ {
+		for _, white := range []bool{true, false} {
+			p := &ref.Pos{EP: -1, White: white}
+			p.Sq[56], p.Sq[7] = -ref.K, ref.K // ka8, Kh1
+			p.Sq[8], p.Sq[55] = ref.P, -ref.P // Pa2, ph7
+			for i := 0; i < n; i++ {
+				p.Sq[17+9*i] = -ref.N // b3, c4, d5, e6, f7: food for the white pawn
+				if i < 4 {
+					p.Sq[46-9*i] = ref.N // g6, f5, e4, d3: food for the black pawn
+				}
+			}
+			r := searchRoot{FEN: p.FEN(0, 1), Tags: "ladder"}
+			cases = append(cases, c13case{Root: r, Cfg: "full/captures-quiescence", Quiet: true},
+				c13case{Root: r, Cfg: "full/captures-quiescence", Depth: 0}, c13case{Root: r, Cfg: "full/captures-quiescence", Depth: 1})
 		}
 	}
 	budget := int64(c.Pick(2_000_000, 20_000_000))
